@@ -122,6 +122,12 @@ where
                 b.package_type = mk(s)?;
                 Out::Ok(b)
             },
+            Call::PartsQualsFromIter(pairs) => guard("Qualifiers::try_from_iter", || {
+                if let Ok(q) = purl::Qualifiers::try_from_iter(pairs.iter().map(|(k, v)| (k.as_str(), v.as_str()))) {
+                    b.parts.qualifiers = q;
+                }
+                b
+            }),
             Call::PartsQual(k, v) => match guard("Qualifiers::insert", || {
                 let _ = b.parts.qualifiers.insert(k.as_str(), v.as_str());
                 b
